@@ -66,6 +66,9 @@ def findlabels(code, opc):
                 jump_offset = offset + 2 + arg2
                 if opc.version_tuple >= (3,13):
                     jump_offset += 2 * _get_cache_size_313(opc.opname[op])
+                elif opc.version_tuple >= (3, 12) and opc.opname[op] in ("FOR_ITER", "SEND"):
+                    # the only 3.12 jumps with an inline cache entry
+                    jump_offset += 2
             elif op in opc.JABS_OPS:
                 jump_offset = arg2
             else:
